@@ -209,6 +209,8 @@ def write_evidence_file(rep: Report, violations, knowns, wall):
     }
     if rep.selftest is not None:
         cov["selftest"] = rep.selftest
+    if getattr(rep, "dependencies", None):
+        cov["dependency_closure"] = rep.dependencies      # rule groups of other properties run on behalf of this one (prsa/deps.py)
     level = rep.level
     if level == "proof" and discharged != n:
         level = "other"      # a proof-level claim needs every obligation discharged
